@@ -8,7 +8,8 @@ PROP = "C17"
 CHECK_MODULE = "Check.C17"
 COQ_IMPORTS = "Model.AnnotationOps Check.AnnCommon Model.Discretize"
 SHARD = 100
-RULE = ("discretize: random annotations (overlapping same-label tracks, 1-3 labels, gaps) on a 60-tick span, support "
+RULE = ("[also: labels renamed to 77 / '77' give the same one-hot matrix, a list holding only spellings of numeric labels is refused] " +
+        "discretize: random annotations (overlapping same-label tracks, 1-3 labels, gaps) on a 60-tick span, support "
         "None / larger / smaller than the extent, resolution a number or a SlidingWindow with duration = 1..5 steps, "
         "optional duration and explicit label lists (permuted, with an absent label), and the falsy-but-valid duration=0, labels=[] and an empty support segment; track-collision families (a support cutting one track down to exactly another segment with the same track name); one_hot_encoding: annotation "
         "cropped to the support, support a Segment or a Timeline with a hole, explicit label lists incl. a missing "
